@@ -235,7 +235,33 @@ def run(ctx):
             deg = algebra.homogeneity(y if reaction != "act" else ye, [m], ctx.seed)
             ctx.check(deg == 1, "R3", f"'{reaction}' ({label}): activity is proportional to the sample mass",
                       f"degree {deg} in mass", site)
-    ctx.floor("R1", 24)
+    # the same record activated again in another environment (another thermal/fast ratio, another Cd ratio, another fluence):
+    # what comes back is what that environment gives on its own - nothing computed for one environment is kept for the next
+    Env_ = None
+    for reaction, fast in (("act", True), ("act", False), ("b", False), ("2n", False)):
+        seqs = ((dict(fluence=P("phi"), Cd_ratio=0, fast_ratio=P("fr")), dict(fluence=P("phi"), Cd_ratio=0, fast_ratio=P("fr2"))) if fast else
+                (dict(fluence=P("phi"), Cd_ratio=1 + c, fast_ratio=0), dict(fluence=P("phi"), Cd_ratio=2 + c, fast_ratio=0)),
+                (dict(fluence=P("phi"), Cd_ratio=1 + c, fast_ratio=0) if not fast else dict(fluence=P("phi"), Cd_ratio=0, fast_ratio=P("fr")),
+                 dict(fluence=P("phi2"), Cd_ratio=1 + c, fast_ratio=0) if not fast else dict(fluence=P("phi2"), Cd_ratio=0, fast_ratio=P("fr"))))
+        for e1, e2 in seqs:
+            alone = None
+            for order in ("alone", "after another environment"):
+                w_, iso_, rec_, _env = make(ctx, reaction, fast, e1["Cd_ratio"], e1["fast_ratio"])
+                I_ = w_.I
+                Env_ = I_.get_class("activation.ActivationEnvironment")
+                env2 = I_.instantiate(Env_, [], dict(e2), name="env2")
+                if order != "alone":
+                    env1 = I_.instantiate(Env_, [], dict(e1), name="env1")
+                    I_.call(I_.global_name("activation", "activity"), [iso_, m, env1, t, [sp.Integer(0)]], {})
+                r_ = I_.call(I_.global_name("activation", "activity"), [iso_, m, env2, t, [sp.Integer(0)]], {})
+                v_ = sp.sympify(r_[rec_][0]) if isinstance(r_, dict) and rec_ in r_ else None
+                if order == "alone":
+                    alone = v_
+                elif alone is not None and v_ is not None:
+                    changed = [k_ for k_ in e1 if e1[k_] != e2[k_]][0]
+                    eq(ctx, "R1", f"'{reaction}' ({'fast' if fast else 'thermal'}): activated again with another {changed}, the result is that environment's own",
+                       v_, alone, site, what="the activity returned after the record was used in another environment")
+    ctx.floor("R1", 32)
     ctx.floor("R2", 9)
     overflow_site = site
 
